@@ -74,12 +74,33 @@ func tlv8WriterItems(c *core.Ctx) {
 		phiOK := false
 		core.Instrs(f, func(i ssa.Instruction) {
 			g := core.Callee(i)
-			if g == nil || cn(g) != "write" {
+			if g == nil || (cn(g) != "write" && cn(g) != "writeByte") {
 				return
 			}
 			parts := core.Sources(core.Args(i)[0])
 			// the literal [tag, 1, k]
 			var k int64 = -1
+			if cn(g) == "writeByte" {
+				// through the byte writer ( writeByte(tag, 1) — its own rule says it writes [tag, 1, b] )
+				if len(core.Args(i)) == 2 {
+					if v, isK := core.ConstInt(core.Args(i)[1]); isK {
+						k = v
+					}
+				}
+				switch k {
+				case 1:
+					n++
+					if !core.Dominated(i, core.TrueFact(isB)) {
+						good = false
+					}
+				case 0:
+					n++
+					if !core.Dominated(i, core.FalseFact(isB)) {
+						good = false
+					}
+				}
+				return
+			}
 			if a := allocOf(core.Args(i)[0]); a != nil {
 				for _, r := range *a.Referrers() {
 					if ia, ok := r.(*ssa.IndexAddr); ok {
